@@ -110,7 +110,7 @@ def run(pid, tier, seed, replay=None):
     for k, (th, sl, co, rounds, ops) in enumerate(runs):
         trace = os.path.join(OUT, "%s_stress_%d.ndjson" % (pid, k))
         rbxv(["sstr-stress", "--threads", th, "--slots", sl, "--contents", co, "--seed", seed + k,
-              "--rounds", rounds, "--ops", ops], stdout_path=trace, timeout=3600)
+              "--rounds", rounds, "--ops", ops, "--pair-drops", 150000 if quick else 1500000], stdout_path=trace, timeout=3600)
         tcfg = os.path.join(OUT, "SharedStringTrace_stress%d.cfg" % k)
         c = consts(th, co, sl, 0, maxbuf=64)
         write_cfg(tcfg, "TraceSpec", c, invariants=INVS)
